@@ -2275,7 +2275,7 @@ class Head(Expr):
             operands = [
                 (
                     Head(op, self.n, self.operand("npartitions"))
-                    if isinstance(op, Expr)
+                    if isinstance(op, Expr) and not self.frame._broadcast_dep(op)
                     else op
                 )
                 for op in self.frame.operands
@@ -2386,7 +2386,11 @@ class Tail(Expr):
     def _simplify_down(self):
         if isinstance(self.frame, Elemwise):
             operands = [
-                Tail(op, self.n) if isinstance(op, Expr) else op
+                (
+                    Tail(op, self.n)
+                    if isinstance(op, Expr) and not self.frame._broadcast_dep(op)
+                    else op
+                )
                 for op in self.frame.operands
             ]
             return type(self.frame)(*operands)
